@@ -67,6 +67,8 @@ def errorsReadAllow : List String := ["refurb.checks.function.use_implicit_defau
 /-- constant lookup tables that are shared but never mutated by either module (no store/method call on them) -/
 def mutableImportAllow : List (String × String) := [
   ("refurb.checks.hashlib.simplify_ctor", "refurb.checks.hashlib.use_hexdigest.HASHLIB_ALGOS"),
-  ("refurb.checks.readability.use_str_func", "refurb.checks.string.use_fstring_fmt.CONVERSIONS")]
+  ("refurb.checks.readability.use_str_func", "refurb.checks.string.use_fstring_fmt.CONVERSIONS"),
+  -- the visitor's method-name → node-class table: only iterated over
+  ("refurb.checks.readability.no_len_cmp", "refurb.visitor.METHOD_NODE_MAPPINGS")]
 
 end RefurbVerif
